@@ -231,9 +231,9 @@ def run(ctx):
             n += 1
             if nt:
                 sigs.add('%d:%d:%d' % (ctx.shard, k, cut))
-        if k == 2:
+        if k == 2 or k == 0:
             got, want, info = play(ctx, ev, len(ev), terms, ['sample'])
-            ctx.case(n=0, sample={'written': got[:700], 'info': info})
+            ctx.sample({'written': got[:700], 'info': info})
     ctx.case(n=n, nt_disjoint=len(sigs))
 
 
